@@ -347,8 +347,79 @@ def c06_7(ctx):
 WITNESS_PREDICATES = {"is_p2wpkh", "is_p2wsh", "is_p2tr", "is_witness_script", "is_witness_program", "is_segwit"}
 
 
+def _bip141_cells(ctx):
+    """Tx.verify_input evaluated on spends of native witness outputs (p2wpkh, p2wsh, p2tr) whose ScriptSig is not empty -- a junk push, OP_1, a
+    33-byte push -- with an empty witness and with a witness that would satisfy the program: none may verify (BIP141), while the same witness
+    with an empty ScriptSig does.  Hashes and signature checks are stand-ins.  None when outside the evaluator's subset."""
+    import hashlib
+    from sa.cells import Evaluator, Obj, Raised, Undecided
+    spec = "tx:Tx.verify_input"
+    mod, fn = rl.get(ctx, spec)
+    H = lambda x: hashlib.sha1(bytes(x)).digest()
+    S = lambda x: hashlib.sha256(bytes(x)).digest()
+    PUB, SIG, XO, SSIG = b"\x02" + b"\x11" * 32, b"\x30" + b"\x01" * 70, b"\x33" * 32, b"\x44" * 64
+    WS = b"<script:true>"
+    scripts = {WS: [0x51]}
+
+    def sig_op(stack, *a, **k_):
+        if len(stack) < 2:
+            return False
+        pub, sig = stack.pop(), stack.pop()
+        stack.append(b"\x01" if (sig, pub) in {(SIG, PUB), (SSIG, XO)} else b"")
+        return True
+
+    def opaque(name, args, kw):
+        if name == "op_hash160":
+            if not args[0]:
+                return False
+            args[0].append(H(args[0].pop()))
+            return True
+        if name in ("op_checksig", "op_checksig_schnorr"):
+            return sig_op(*args)
+        if name == "hash160":
+            return H(args[0])
+        if name == "sha256":
+            return S(args[0])
+        return NotImplemented
+
+    def parse(cls, stream, *a, **k_):
+        txt = stream.text if hasattr(stream, "text") else stream
+        for b_, cmds in scripts.items():
+            if isinstance(txt, bytes) and txt.endswith(b_):
+                return Obj("script", "Script", {"commands": list(cmds)})
+        raise Raised("ValueError")
+    outs = {"p2wpkh": ("P2WPKHScriptPubKey", [0, H(PUB)], [SIG, PUB]), "p2wsh": ("P2WSHScriptPubKey", [0, S(WS)], [WS]), "p2tr": ("P2TRScriptPubKey", [0x51, XO], [SSIG])}
+    try:
+        for kind, (cls, cmds, good_wit) in outs.items():
+            spk = Obj("script", cls, {"commands": list(cmds)})
+            for sig_cmds, wit, want in ([[], good_wit, True], [[b"junk"], [], False], [[0x51], [], False], [[b"\x02" + b"\x7e" * 32], [], False], [[b"junk"], good_wit, False]):
+                ctx.count("cells")
+                txin = Obj("tx", "TxIn", {"script_sig": Obj("script", "Script", {"commands": list(sig_cmds)}), "witness": Obj("witness", "Witness", {"items": list(wit)}),
+                                          "sequence": 0xFFFFFFFF})
+                tx = Obj("tx", "Tx", {"tx_ins": [txin], "network": "testnet", "locktime": 0, "version": 2})
+                hooks = {("TxIn", "script_pubkey"): lambda o, *a, **k_: spk, ("Script", "parse"): parse}
+                try:
+                    r = Evaluator(ctx.repo, opaque=opaque, method_hooks=hooks, max_steps=400000).call(spec, [0], self_obj=tx)
+                except Raised:
+                    r = False
+                if bool(r) != want:
+                    if want:
+                        return [ctx.bad(spec, "an honest %s spend (empty ScriptSig, satisfying witness) is not accepted" % kind, fn, mod, key="bip141-empty-scriptsig")]
+                    shown = " ".join(c.hex()[:8] if isinstance(c, bytes) else "OP_%d" % (c - 0x50) for c in sig_cmds)
+                    return [ctx.bad(spec, "a %s output spent with the non-empty ScriptSig `%s` and %s is reported valid: BIP141 requires an empty ScriptSig for a native witness "
+                                          "program; the extra stack items keep the witness rule from firing and the program itself is a true value" % (
+                                              kind, shown, "an empty witness" if not wit else "its witness"), fn, mod, key="bip141-empty-scriptsig")]
+    except Undecided:
+        return None
+    return [ctx.ok(spec, "a witness-program spend with a non-empty scriptSig is rejected (p2wpkh, p2wsh, p2tr x 4 ScriptSigs; the honest spends verify)", fn, mod,
+                   key="bip141-empty-scriptsig")]
+
+
 def c06_8(ctx):
     """BIP141: native witness program with a non-empty scriptSig is rejected"""
+    ev = _bip141_cells(ctx)
+    if ev is not None:
+        return ev
     cands = []
     for spec in ("tx:Tx.verify_input", "script:Script.evaluate"):
         mod, fn = rl.get(ctx, spec)
@@ -1007,7 +1078,96 @@ def c06_22(ctx):
     return out
 
 
+def c06_23(ctx):
+    """signature-free ScriptSigs around the RedeemScript of a p2sh 2-of-3 output: Tx.verify_input (and the script evaluation it ends in) is
+    evaluated with ScriptSigs that carry the RedeemScript push together with opcodes or extra pushes but no signature -- `<R> OP_NOP`,
+    `<R> OP_DUP OP_DROP`, `OP_NOP <R>`, `<R> <R>`, `<junk> <R>`, `OP_1 <R>`, `<R> OP_1` -- none may verify (BIP16: the ScriptSig of a p2sh
+    spend is push-only, and the RedeemScript is then executed).  The honest spend with two valid signatures must verify.  Hashes and the
+    signature check are stand-ins: a signature element names the key it is valid for."""
+    import hashlib
+    from sa.cells import Evaluator, Obj, Raised, Undecided
+    spec = "tx:Tx.verify_input"
+    mod, fn = rl.get(ctx, spec)
+    H = lambda x: hashlib.sha1(bytes(x)).digest()
+    keys = [b"\x02" + bytes([0x11 * (i + 1)]) * 32 for i in range(3)]
+    scripts = {}
+    R = b"<script:2of3>"
+    scripts[R] = [0x52] + keys + [0x53, 0xAE]
+
+    def multisig(stack, *a, **k_):
+        # m-of-n with signatures written as b"SIG" + key: succeeds iff m valid signatures in key order, as C06.21 establishes for the real handler
+        try:
+            n = stack.pop()[0]
+            pks = [stack.pop() for _ in range(n)][::-1]
+            m_ = stack.pop()[0]
+            sigs = [stack.pop() for _ in range(m_)][::-1]
+            stack.pop()
+        except (IndexError, TypeError):
+            return False
+        idx = []
+        for sg in sigs:
+            if not (isinstance(sg, bytes) and sg[:3] == b"SIG" and sg[3:] in pks):
+                return False
+            idx.append(pks.index(sg[3:]))
+        if idx != sorted(set(idx)):
+            return False
+        stack.append(b"\x01")
+        return True
+
+    def opaque(name, args, kw):
+        if name == "op_hash160":
+            if not args[0]:
+                return False
+            args[0].append(H(args[0].pop()))
+            return True
+        if name == "hash160":
+            return H(args[0])
+        if name == "op_checkmultisig":
+            return multisig(*args)
+        if name in ("op_checksig", "op_checksigverify", "op_checkmultisigverify"):
+            return False
+        return NotImplemented
+
+    def parse(cls, stream, *a, **k_):
+        for b_, cmds in scripts.items():
+            if isinstance(stream, bytes) and stream.endswith(b_):
+                return Obj("script", "Script", {"commands": list(cmds)})
+        if hasattr(stream, "text"):
+            for b_, cmds in scripts.items():
+                if stream.text.endswith(b_):
+                    return Obj("script", "Script", {"commands": list(cmds)})
+        raise Raised("ValueError")
+    spk = Obj("script", "P2SHScriptPubKey", {"commands": [0xA9, H(R), 0x87]})
+    cases = [("the honest spend `OP_0 <sig1> <sig2> <R>`", [0, b"SIG" + keys[0], b"SIG" + keys[1], R], True),
+             ("`<R> OP_NOP`", [R, 0x61], False), ("`<R> OP_DUP OP_DROP`", [R, 0x76, 0x75], False), ("`OP_NOP <R>`", [0x61, R], False), ("`<R> <R>`", [R, R], False),
+             ("`<junk> <R>`", [b"junk", R], False), ("`OP_1 <R>`", [0x51, R], False), ("`<R> OP_1`", [R, 0x51], False), ("`<R>` alone", [R], False)]
+    out = []
+    try:
+        for label, sig_cmds, want in cases:
+            ctx.count("cells")
+            txin = Obj("tx", "TxIn", {"script_sig": Obj("script", "Script", {"commands": list(sig_cmds)}), "witness": Obj("witness", "Witness", {"items": []}), "sequence": 0xFFFFFFFF})
+            tx = Obj("tx", "Tx", {"tx_ins": [txin], "network": "testnet", "locktime": 0, "version": 1})
+            hooks = {("TxIn", "script_pubkey"): lambda o, *a, **k_: spk, ("Script", "parse"): parse}
+            try:
+                r = Evaluator(ctx.repo, opaque=opaque, method_hooks=hooks, max_steps=400000).call(spec, [0], self_obj=tx)
+            except Raised:
+                r = False
+            if bool(r) != want:
+                if want:
+                    return [ctx.bad(spec, "%s of a p2sh 2-of-3 output is not accepted" % label, fn, mod, key="p2sh-signature-free")]
+                out.append(ctx.bad(spec, "a p2sh 2-of-3 output spent with the ScriptSig %s -- no signature at all -- is reported valid: with something other than pushes next to "
+                                         "the RedeemScript push the p2sh rule does not fire, the RedeemScript is never executed and `OP_HASH160 <h> OP_EQUAL` alone decides" % label,
+                                   fn, mod, key="p2sh-signature-free"))
+                break
+    except Undecided as u:
+        return [ctx.err(spec, "input verification not evaluable: %s" % u, fn, mod)]
+    if not out:
+        out.append(ctx.ok(spec, "8 signature-free ScriptSigs around the RedeemScript of a p2sh 2-of-3 are refused, the honest spend is accepted", fn, mod, key="p2sh-signature-free"))
+    return out
+
+
 OBLIGATIONS = [
+    ("C06.23", "CELLS p2sh ScriptSig", c06_23),
     ("C06.22", "DATAFLOW key format", c06_22),
     ("C06.21", "CELLS multisig", c06_21),
     ("C06.20", "CELLS witness program", c06_20),
